@@ -5,6 +5,7 @@
    a key in file order).  [serve] : the model of ServeDNSWithRCODE (Model/Serve.v). *)
 From DnsV Require Import Base.Bytes Model.Store Model.LookupV1 Model.Serve Spec.Answer Spec.Rows.
 From DnsV Require Import Proofs.Answer Proofs.Compile Proofs.Reads.
+From DnsV Require Import Proofs.ZoneCut Proofs.V2Store Proofs.V2Corollaries.
 Open Scope N_scope.
 
 (* CDB and RocksDB with v1 keys: for every pair of record sets with the same view for L, every
@@ -34,9 +35,18 @@ Theorem C04_adding_foreign_keeps_view : forall L recs extra,
 Proof. exact same_view_foreign. Qed.
 Print Assumptions C04_adding_foreign_keeps_view.
 
-(* C04_foreign_edit_invisible_partial: the statement for the closest-key reader (RocksDB v2 keys)
-   is NOT proved; it needs seek_skip_sound (C02): the SeekForPrev probe does read foreign keys and
-   the claim is that they cannot influence the result.  The differential run covers it. *)
+(* RocksDB with v2 keys (closest-key reader).  Its SeekForPrev probes DO land on keys of other
+   locations; by seek_skip_sound (C02) they cannot influence the result: through
+   C02_v2_equals_v1 the outcome equals that of the v1 reader, which reads only the client's and the
+   untagged keys.  Guards of C02_v2_equals_v1: well-formed records and view on both sides, the
+   lower-cased query name is a wire-valid name [pack n] *)
+Theorem C04_foreign_edit_invisible_v2 : forall recs recs' L q n ecs max,
+  wf_recs recs -> wf_recs recs' -> length L = 2%nat ->
+  wf_view L recs = true -> wf_view L recs' = true -> same_view L recs recs' ->
+  wf_name n -> nlen (pack n) <= 255 -> lower_bytes (q_name q) = pack n ->
+  serve RDB2 (store_v2 recs) q (LocOk L) ecs max = serve RDB2 (store_v2 recs') q (LocOk L) ecs max.
+Proof. exact foreign_edit_invisible_v2. Qed.
+Print Assumptions C04_foreign_edit_invisible_v2.
 
 (* non-trivial instance: a foreign (location ef) A record and NS at the queried name change nothing
    for a client in location ab, while the located record for ab is served *)
